@@ -145,9 +145,27 @@ def gen(repo):
         raise TranslateError("shutdown arm: send/close guards not recognised")
 
     # error arm
-    ea = need(r"catch\s*\(\s*const\s+std::exception\s*&ex\s*\)\s*\{(.*)\}\s*iora::core::Logger::debug\(\"HttpServer::processHttpRequest\(\) - Exiting", php, "error arm").group(1)
+    # the arm that ends processHttpRequest's try: `catch (const std::exception &ex)` (non-std exceptions of the subclass seams escape:
+    # the unrepaired code) or `catch (...)` classifying by rethrow (every exception gets the terminal error response)
+    tail = r"\{(.*)\}\s*iora::core::Logger::debug\(\"HttpServer::processHttpRequest\(\) - Exiting"
+    m_std = re.search(r"\}\s*catch\s*\(\s*const\s+std::exception\s*&ex\s*\)\s*" + tail, php, re.S)
+    m_all = re.search(r"\}\s*catch\s*\(\s*\.\.\.\s*\)\s*" + tail, php, re.S)
+    # the LAST catch before "Exiting" decides; m_all's lazy start may sit on an inner catch(...) of a lambda, so test the std form first
+    if m_std and "catch (...)" not in m_std.group(1).split("int errStatus")[0]:
+        ea = m_std.group(1)
+        err_catches_all = False
+        need(r"dynamic_cast<const\s+HttpRequestError\s*\*>\s*\(\s*&ex\s*\)\s*\)\s*\{\s*errStatus\s*=\s*reqErr->status\(\)\s*;", ea, "error arm status mapping")
+    elif m_all:
+        ea = php[php.rfind("catch (...)", 0, php.find("int errStatus")):]
+        ea = need(r"catch\s*\(\s*\.\.\.\s*\)\s*" + tail, ea, "error arm (catch-all)").group(1)
+        err_catches_all = True
+        need(r"try\s*\{\s*throw\s*;\s*\}\s*catch\s*\(\s*const\s+HttpRequestError\s*&reqErr\s*\)\s*\{\s*errStatus\s*=\s*reqErr\.status\(\)\s*;[^{}]*\}\s*"
+             r"catch\s*\(\s*const\s+std::exception\s*&ex\s*\)\s*\{[^{}]*\}\s*catch\s*\(\s*\.\.\.\s*\)\s*\{\s*\}", ea, "error arm classification by rethrow")
+    else:
+        raise TranslateError("error arm: neither `catch (const std::exception &ex)` nor `catch (...)` closes processHttpRequest's try")
+    if len(re.findall(r"int\s+errStatus\s*=", php)) != 1:
+        raise TranslateError("error arm: expected exactly one `int errStatus =`")
     err_default = int(need(r"int\s+errStatus\s*=\s*(\d+)\s*;", ea, "error arm default status").group(1))
-    need(r"dynamic_cast<const\s+HttpRequestError\s*\*>\s*\(\s*&ex\s*\)\s*\)\s*\{\s*errStatus\s*=\s*reqErr->status\(\)\s*;", ea, "error arm status mapping")
     need(r"HttpResponse\s+errorRes\s*\(\s*errStatus\s*,\s*getStatusText\(errStatus\)\s*\)\s*;", ea, "error response ctor")
     ea_hdrs = set_headers(ea, "errorRes")
     if [(k, v) for k, v, _ in ea_hdrs if v is not None] != [("Content-Type", "text/plain"), ("Connection", "close")] or \
@@ -264,6 +282,8 @@ def gen(repo):
     t += "def statusTextDefault : String := %s\n" % lstr(dflt)
     t += "/-- error arm of `processHttpRequest`: default status (any exception that is not an `HttpRequestError`) -/\n"
     t += "def errDefaultStatus : Nat := %d\n" % err_default
+    t += "/-- the arm is `catch (...)` (true: an exception of any type gets the terminal error response) or `catch (const std::exception &)`\n    (false, the unrepaired code: a non-std exception thrown by a subclass seam escapes and the request is never answered) -/\n"
+    t += "def errCatchesAll : Bool := %s\n" % ("true" if err_catches_all else "false")
     t += "/-- literal headers of the error response (Content-Length = body size is added; body = status text; the arm always closes) -/\n"
     t += "def errContentType : String := %s\ndef errConnection : String := %s\n" % (lstr(ea_hdrs[0][1]), lstr(ea_hdrs[1][1]))
     t += "/-- shutdown arm -/\n"
